@@ -1,0 +1,73 @@
+//go:build verif
+
+// Contracts for package sasl, read by /verif/govc (comments only; never compiled into the package).
+package sasl
+
+/*@
+(func "sasl.scanLengthEncodedString"
+  (props C13 C05)
+  (use be16)
+  (ensures token (=> (sl_tok (content data))
+      (and (= advance (sl_adv (content data))) (= (content token) (str.substr (content data) 0 advance))
+           (= (len token) advance) (= err nil) (not (isnil token)) (= (ref token) (ref data)))))
+  (ensures too-long (=> (sl_bad (content data)) (and (not (= err nil)) (isnil token) (= advance 0))))
+  (ensures need-more (=> (and (sl_need (content data)) (not atEOF)) (and (= advance 0) (isnil token) (= err nil))))
+  (ensures eof-empty (=> (and atEOF (= (len data) 0)) (and (= advance 0) (isnil token) (= err nil))))
+  (ensures eof-partial (=> (and (sl_need (content data)) atEOF (> (len data) 0)) (and (not (= err nil)) (isnil token) (= advance 0))))
+  (ensures advance-bounds (and (<= 0 advance) (<= advance (len data)))))
+*/
+
+/*@
+(func "sasl.decodeLengthEncodedStrings"
+  (props C13 C05)
+  (use be16 fields)
+  (requires nonempty (>= (len parts) 1))
+  (modifies rin sc_rest sc_tok sc_err sc_split)
+  (ensures ok-fields (=> (= $r0 nil)
+      (and (fok (old (select rin reader)) (len parts))
+           (forall ((j Int)) (=> (and (<= (off parts) j) (< j (+ (off parts) (len parts))))
+                                 (= (select (elemarr parts) j) (ffield (old (select rin reader)) (- j (off parts)))))))))
+  (ensures error-witness (=> (not (= $r0 nil))
+      (or (not (= (rterm reader) 0))
+          (exists ((j Int)) (and (<= 0 j) (< j (len parts)) (fok (old (select rin reader)) j)
+                                 (not (sl_tok (frest (old (select rin reader)) j))))))))
+  (loop 0
+    (invariant index (and (<= 0 (local i)) (< (local i) (len parts))))
+    (invariant scanner (and (> (local scanner) 0) (= (sc_reader (local scanner)) reader)
+                            (= (select sc_split (local scanner)) (fn "sasl.scanLengthEncodedString"))))
+    (invariant position (and (fok (old (select rin reader)) (local i))
+                             (= (select sc_rest (local scanner)) (frest (old (select rin reader)) (local i)))))
+    (invariant err (or (= (select sc_err (local scanner)) 0) (= (select sc_err (local scanner)) (rterm reader))))
+    (invariant fields (forall ((j Int)) (=> (and (<= (off parts) j) (< j (+ (off parts) (local i))))
+                                 (= (select (elemarr parts) j) (ffield (old (select rin reader)) (- j (off parts)))))))
+    (decreases (- (len parts) (local i)))))
+*/
+
+/*@
+(func "sasl.encodeLengthEncodedStrings"
+  (props C13 C05)
+  (use be16 wirep zeros)
+  (modifies wout wcalls)
+  (ensures ok (=> (= $r0 nil)
+      (and (= wout (store (old wout) writer (str.++ (select (old wout) writer) (wirep (elemarr parts) (off parts) (len parts)))))
+           (= wcalls (store (old wcalls) writer (+ (select (old wcalls) writer) (len parts))))
+           (forall ((j Int)) (=> (and (<= (off parts) j) (< j (+ (off parts) (len parts))))
+                                 (<= (str.len (select (elemarr parts) j)) 65535))))))
+  (ensures others (and (= wout (store (old wout) writer (select wout writer)))
+                       (= wcalls (store (old wcalls) writer (select wcalls writer)))))
+  (ensures attempts (and (<= (select (old wcalls) writer) (select wcalls writer))
+                         (<= (select wcalls writer) (+ (select (old wcalls) writer) (len parts)))))
+  (ensures first-fits-written (=> (and (>= (len parts) 1) (<= (str.len (elem parts 0)) 65535))
+                                  (>= (select wcalls writer) (+ (select (old wcalls) writer) 1))))
+  (ensures first-too-long (=> (and (>= (len parts) 1) (> (str.len (elem parts 0)) 65535))
+                              (and (not (= $r0 nil)) (= wout (old wout)) (= wcalls (old wcalls)))))
+  (loop 0
+    (invariant index (and (<= -1 (local rangeindex)) 
+                          (<= (local rangeindex) (- (len parts) 1))))
+    (invariant written (= wout (store (old wout) writer
+        (str.++ (select (old wout) writer) (wirep (elemarr parts) (off parts) (+ (local rangeindex) 1))))))
+    (invariant calls (= wcalls (store (old wcalls) writer (+ (select (old wcalls) writer) (local rangeindex) 1))))
+    (invariant lengths (forall ((j Int)) (=> (and (<= (off parts) j) (<= j (+ (off parts) (local rangeindex))))
+                                 (<= (str.len (select (elemarr parts) j)) 65535))))
+    (decreases (- (len parts) (local rangeindex)))))
+*/
